@@ -67,7 +67,20 @@ class C19(Prop):
                 mode = 'bom'
             elif k == 3:
                 # directives are compiled to nothing, whatever they contain - also predicate indicators name/arity
-                text = src.pick([":- dynamic(seen/1).\n", ":- import('', [eval/1]).\n", ":- d.\n:- export(p/2).\n"]) + text
+                dv = src.pick([":- dynamic(seen/1).\n", ":- import('', [eval/1]).\n", ":- d.\n:- export(p/2).\n",
+                               # directives with variables and anonymous variables, with lists, with control constructs
+                               ":- initialization(main(_)).\n", ":- foo(_, X, _), bar(X).\n", ":- [helpers].\n",
+                               ":- ( a(_) -> b ; \\+ c(_G) ).\n", ":- x(_), !.\n"])
+                where = src.n(3)
+                if where == 0:
+                    text = dv + text
+                elif where == 1:
+                    text = text + dv
+                else:
+                    lines = text.split('.\n')
+                    cut = src.n(len(lines))
+                    text = '.\n'.join(lines[:cut]) + ('.\n' if cut else '') + dv + '.\n'.join(lines[cut:])
+                text += src.pick(['', 'w(_, _).\n', 'w(A, _) :- v(_, A), \\+ u(_).\n'])
                 mode = 'directive'
             elif k == 5:
                 # the text does not end in a line break: after a full stop, or inside a % comment
